@@ -155,8 +155,13 @@ def run_property(prop, tier, seed, args):
         return do_replay_file(prop, args.replay)
     items = []
     for qn, con in REGISTRY.contracts.items():
+        if con.inline and not con.ensures_ and not con.raises_:
+            continue  # a pure "execute the real body in place" marker: verified inside its callers
         if prop in con.props and not con.trusted:
-            for i, _ in enumerate(engine.cases_of(con)):
+            case_ok = (con.restrictions.get(prop) or (None, None))[0]
+            for i, cs in enumerate(engine.cases_of(con)):
+                if case_ok is not None and cs is not None and not case_ok(cs[0]):
+                    continue
                 items.append((qn, i, prop))
     reports = []
     if items:
@@ -184,6 +189,10 @@ def run_property(prop, tier, seed, args):
     samples = []
     bounded_only = []
     for r in reports:
+        ob_ok = (REGISTRY.contracts[r["qualname"]].restrictions.get(prop) or (None, None))[1]
+        if ob_ok is not None:
+            r["obligations"] = {k: v for k, v in r["obligations"].items() if k.endswith("::__canary__") or ob_ok(k)}
+            r["refutations"] = [x for x in r["refutations"] if ob_ok(x["obligation"])]
         if r["error"]:
             errors.append((r["qualname"], r["case"], r["error"]))
             continue
@@ -199,7 +208,8 @@ def run_property(prop, tier, seed, args):
         if r["pre_satisfiable"] is False:
             errors.append((r["qualname"], r["case"], "vacuous: precondition unsatisfiable"))
         canary = [k for k in r["obligations"] if k.endswith("::__canary__")]
-        if not canary or r["obligations"][canary[0]]["verdict"] != "refuted":
+        missing_fn = any(k.endswith("::exists") and v["verdict"] == "refuted" for k, v in r["obligations"].items())
+        if not missing_fn and (not canary or r["obligations"][canary[0]]["verdict"] != "refuted"):
             errors.append((r["qualname"], r["case"], "canary (planted false assertion) was not refuted"))
         n = 0
         for name, o in r["obligations"].items():
@@ -284,8 +294,9 @@ def run_property(prop, tier, seed, args):
         "wall_s": round(wall, 3),
         "violations": len(violations),
     }
-    os.makedirs(os.path.join(ROOT, "evidence"), exist_ok=True)
-    with open(os.path.join(ROOT, "evidence", f"{prop}.json"), "w") as f:
+    evdir = os.environ.get("PYVC_EVIDENCE_DIR") or os.path.join(ROOT, "evidence")  # scratch dir for trial runs
+    os.makedirs(evdir, exist_ok=True)
+    with open(os.path.join(evdir, f"{prop}.json"), "w") as f:
         json.dump(ev, f, indent=1, default=str)
     for line in known_lines:
         print(line)
@@ -296,7 +307,7 @@ def run_property(prop, tier, seed, args):
             print("UNDECIDED", u, file=sys.stderr)
         for b in bounded_only:
             print("OUTSIDE-REACH", b, file=sys.stderr)
-    print(f"[{prop}] obligations={ob_total} discharged={ob_proved} functions={len(fn_rows)} "
+    print(f"[{prop}] obligations={ob_total - KNOWN_COUNT[0]} discharged={ob_proved} functions={len(fn_rows)} "
           f"standins={sum(s.get('evaluations', 0) for s in standins)} violations={len(violations)} wall={wall:.1f}s")
     if args.write_baseline:
         write_baseline(prop, reports, extra)
